@@ -10,6 +10,12 @@ type W struct {
 
 // U writes the low n bits of v, most significant first.
 func (w *W) U(v uint64, n int) *W {
+	if w.nbit == 0 && n&7 == 0 { // byte-aligned whole bytes
+		for i := n - 8; i >= 0; i -= 8 {
+			w.b = append(w.b, byte(v>>uint(i)))
+		}
+		return w
+	}
 	for i := n - 1; i >= 0; i-- {
 		bit := byte(v>>uint(i)) & 1
 		if w.nbit == 0 {
